@@ -1,11 +1,13 @@
 """C11 - Zernike (Noll, Fringe, ANSI) and XY index conventions are bijections onto valid orders."""
 import math
 
+import numpy as np
+
 from hypothesis import strategies as st
 
 from vlib.core import HypClause, EnumClause
 
-RULE = ("Complete enumeration of every index j in 1..J (ANSI from 0) in blocks of 500 consecutive indices "
+RULE = ("Also call sequences: random interleavings of the six index functions with mistaken requests (float / zero / negative / None / string index, wrong-parity or |m| > n orders) caught in between, every valid answer compared with the integer reference.  Complete enumeration of every index j in 1..J (ANSI from 0) in blocks of 500 consecutive indices "
         "(J = 1e5 quick, 2e6 thorough; XY 2e4 / 2e5 because xy_j_to_mn is O(sqrt j) per call with a large constant) "
         "and of every valid (n,m) with n<=N for the inverse maps; plus Hypothesis-drawn j up to 1e12 (Fringe, ANSI), "
         "1e10 (Noll), 1e9 (XY) placed at and next to perfect squares and triangular numbers where float sqrt/ceil would "
@@ -287,6 +289,97 @@ def check_types(case, ctx):
         got2 = ctx.call(fn, jt)
         ctx.require(_eq(got2, ref(jj)), name + ':second-lookup', 'looking the same index object up twice gives %r then %r' % (got, got2))
 
+# ---- call sequences: siblings interleaved, requests that fail in between --------------------------------------------------------------
+def strat_sequences(tier):
+    j = st.one_of(st.integers(1, 40), st.integers(1, 400), st.integers(1, 20000))
+    n = st.one_of(st.integers(0, 8), st.integers(0, 60))
+    good = st.one_of(
+        st.tuples(st.sampled_from(['noll_to_nm', 'fringe_to_nm', 'xy_j_to_mn', 'ansi_j_to_nm']), j).map(lambda t: {'fn': t[0], 'j': t[1]}),
+        st.tuples(st.sampled_from(['nm_to_ansi_j', 'nm_to_fringe']), n, st.integers(0, 60), st.booleans()).map(
+            lambda t: {'fn': t[0], 'n': t[1], 'm': (t[2] % (t[1] + 1)) - ((t[2] % (t[1] + 1) - t[1]) % 2), 'neg': t[3]}))
+    # requests a caller may issue by mistake; nothing is asserted about them (they may raise or return anything)
+    junk = st.one_of(
+        st.tuples(st.sampled_from(['noll_to_nm', 'fringe_to_nm', 'xy_j_to_mn', 'ansi_j_to_nm']),
+                  st.sampled_from(['float', 'zero', 'negative', 'none', 'str', 'half'])).map(lambda t: {'fn': t[0], 'junk': t[1]}),
+        st.tuples(st.sampled_from(['nm_to_ansi_j', 'nm_to_fringe']), st.integers(0, 12), st.integers(-14, 14),
+                  st.sampled_from(['wrong-parity', 'm>n', 'float'])).map(lambda t: {'fn': t[0], 'n': t[1], 'm': t[2], 'junk': t[3]}))
+    return st.fixed_dictionaries({'ops': st.lists(st.one_of(good, good, good, junk), min_size=2, max_size=14), 'seed': st.integers(0, 10**6)})
+
+
+class _Timeout(BaseException):
+    pass
+
+
+def _mistaken(fn, args, seconds=2):
+    """issue a mistaken request the way a caller would (catching whatever comes); a request that does not come back within `seconds` is
+    abandoned.  Returns 1 if it raised or was abandoned."""
+    import signal
+
+    def _alarm(*a):
+        raise _Timeout()
+    old = signal.signal(signal.SIGALRM, _alarm)
+    signal.alarm(seconds)
+    try:
+        fn(*args)
+        return 0
+    except _Timeout:
+        return 1
+    except Exception:      # noqa - the caller of a mistaken request catches whatever comes
+        return 1
+    finally:
+        signal.alarm(0)
+        signal.signal(signal.SIGALRM, old)
+
+
+def check_sequences(case, ctx):
+    """any interleaving of the index maps and their inverses, with mistaken requests in between: every valid request is answered as by a fresh process."""
+    from prysm import polynomials as P
+    from prysm.polynomials.xy import xy_j_to_mn
+    fns = {'noll_to_nm': P.noll_to_nm, 'fringe_to_nm': P.fringe_to_nm, 'ansi_j_to_nm': P.ansi_j_to_nm, 'xy_j_to_mn': xy_j_to_mn,
+           'nm_to_ansi_j': P.nm_to_ansi_j, 'nm_to_fringe': P.nm_to_fringe}
+    refs = {'noll_to_nm': ref_noll, 'fringe_to_nm': ref_fringe, 'ansi_j_to_nm': ref_ansi, 'xy_j_to_mn': ref_xy}
+    njunk = nraise = 0
+    hist = []
+    for op in case['ops']:
+        fn = fns[op['fn']]
+        if 'junk' in op:
+            njunk += 1
+            if 'j' not in op and 'n' not in op:
+                base = 7 + len(hist)
+                arg = {'float': float(base), 'zero': 0, 'negative': -base, 'none': None, 'str': str(base), 'half': base + 0.5}[op['junk']]
+                args = (arg,)
+            else:
+                n_, m_ = op['n'], op['m']
+                if op['junk'] == 'wrong-parity':
+                    m_ = m_ if (n_ - m_) % 2 else m_ + 1
+                elif op['junk'] == 'm>n':
+                    m_ = n_ + 2 * (1 + abs(m_))
+                else:
+                    n_, m_ = float(n_) + 0.5, float(m_)
+                args = (n_, m_)
+            if op['fn'] == 'xy_j_to_mn' and op['junk'] == 'half':
+                continue          # does not terminate on the unchanged tree (its search loop never meets a non-integer index)
+            nraise += _mistaken(fn, args)
+            hist.append('%s%r (mistaken)' % (op['fn'], args))
+            continue
+        if 'j' in op:
+            jj = op['j'] - 1 if (op['fn'] == 'ansi_j_to_nm' and op['j'] % 3 == 0) else op['j']     # ANSI counts from 0
+            got = ctx.call(fn, jj)
+            want = refs[op['fn']](jj)
+            hist.append('%s(%d)' % (op['fn'], jj))
+            ctx.require(_eq(got, want), op['fn'] + ':after-history', '%s(%d) = %r, expected %r, after %s' % (op['fn'], jj, got, want, ', '.join(hist[:-1]) or 'nothing'))
+        else:
+            n_, m_ = op['n'], (-op['m'] if op['neg'] else op['m'])
+            hist.append('%s(%d, %d)' % (op['fn'], n_, m_))
+            got = ctx.call(fn, n_, m_)
+            if op['fn'] == 'nm_to_ansi_j':
+                ok = (2 * got == n_ * (n_ + 2) + m_)
+            else:
+                ok = isinstance(got, (int, np.integer)) and got >= 1 and ref_fringe(int(got)) == (n_, m_)
+            ctx.require(bool(ok), op['fn'] + ':after-history', '%s(%d, %d) = %r after %s' % (op['fn'], n_, m_, got, ', '.join(hist[:-1]) or 'nothing'))
+    ctx.nt(njunk > 0 or len(set(o['fn'] for o in case['ops'])) > 2)
+    ctx.label('mistaken-requests:%d' % min(njunk, 3), 'raised:%d' % min(nraise, 3), 'ops:%s' % ('<6' if len(case['ops']) < 6 else '>=6'))
+
 
 CLAUSES = [
     EnumClause('noll_blocks', enum_blocks('noll', {'quick': 100000, 'thorough': 2000000}), check_block),
@@ -296,5 +389,6 @@ CLAUSES = [
     EnumClause('inverse_rows', enum_inverse, check_inverse),
     EnumClause('published_tables', enum_xy_table, check_tables, shards={'quick': 2, 'thorough': 2}),
     HypClause('argument_types', strat_types, check_types, examples={'quick': 600, 'thorough': 4000}, shards={'quick': 2, 'thorough': 8}),
+    HypClause('call_sequences', strat_sequences, check_sequences, examples={'quick': 800, 'thorough': 5000}, shards={'quick': 4, 'thorough': 16}),
     HypClause('targeted_large', strat_targeted, check_targeted, examples={'quick': 300, 'thorough': 1500}, shards={'quick': 4, 'thorough': 16}),
 ]
